@@ -178,7 +178,8 @@ def _chunk(forms):
 
 def PROOFS():
     T = "formulae.terms.terms."
-    return [("vf.contracts.terms_c", [T + "Term.__init__", T + "Term.__eq__"])]
+    return [("vf.contracts.terms_c", [T + "Term.__init__", T + "Term.__eq__", T + "Model.__init__", T + "Model.add_term", T + "Model.terms",
+                                      T + "Model.__add__", T + "Model.__sub__", T + "Model.__add__#model", T + "Model.__sub__#model"])]
 
 
 def run(report, findings):
